@@ -11,7 +11,7 @@ ALPH = ["a", "'", "\\", " ", "\xe9", "λ", "\U0001d11e", "1"]
 FLOATS = [0.5, 1.0, 1e22, 5e-324]
 NSHAPES = 6
 NKINDS = 4
-NEDITS = 11
+NEDITS = 12
 
 
 def leaf_value(kind, ci, s0, s1, sn):
@@ -143,6 +143,18 @@ def edit(q, c, kind):
         else:
             leafn.value = c + " "
         return True
+    if kind == 11:    # one non-ASCII character replaced by another one (or appended when the leaf has none)
+        if isinstance(c, str):
+            swap = {"\xe9": "\u03bb", "\u03bb": "\xe9", "\U0001d11e": "\u03bb"}
+            new = "".join(swap.get(ch, ch) for ch in c)
+            leafn.value = new if new != c else c + "\u03bb"
+            other = find_twin(q, c)
+            return True
+        for n in ast.walk(q):
+            if isinstance(n, ast.Attribute):
+                n.attr = n.attr + "\u03bb"
+                return True
+        return False
     # kind 10: which of two arguments carries the keyword (positional vs keyword argument)
     for n in ast.walk(q):
         if isinstance(n, ast.Call) and n.keywords and n.args:
@@ -151,6 +163,10 @@ def edit(q, c, kind):
             n.args = n.args[:-1] + [kw.value]
             return True
     return False
+
+
+def find_twin(q, c):
+    return None
 
 
 def same(a, b):
@@ -167,7 +183,7 @@ def c20(code: int, ci: int, s0: int, s1: int, sn: int, rel: int, ek: int, bn: in
     """
     pre: LO <= code < HI and 0 <= code < 24
     pre: 0 <= ci <= 4 and 0 <= s0 < 8 and 0 <= s1 < 8 and 0 <= sn <= 1
-    pre: 0 <= rel <= 4 and 0 <= ek < 11 and 0 <= bn <= 1
+    pre: 0 <= rel <= 6 and 0 <= ek < 12 and 0 <= bn <= 1
     post: (_ == '') != TWIN
     """
     return body(code, ci, s0, s1, sn, rel, ek, bn)
@@ -177,7 +193,7 @@ def c20t(code: int, ci: int, s0: int, s1: int, sn: int, rel: int, ek: int, bn: i
     """
     pre: LO <= code < HI and 0 <= code < 24
     pre: 0 <= ci <= 4 and 0 <= s0 < 8 and 0 <= s1 < 8 and 0 <= sn <= 2
-    pre: 0 <= rel <= 4 and 0 <= ek < 11 and 0 <= bn <= 1
+    pre: 0 <= rel <= 6 and 0 <= ek < 12 and 0 <= bn <= 1
     post: (_ == '') != TWIN
     """
     return body(code, ci, s0, s1, sn, rel, ek, bn)
@@ -194,8 +210,8 @@ def body(code, ci, s0, s1, sn, rel, ek, bn):
     else:
         ci = pick(ci, 0, 5)
         s0 = s1 = sn = 0
-    rel = pick(rel, 0, 5)
-    ek = pick(ek, 0, NEDITS) if rel >= 3 else 0
+    rel = pick(rel, 0, 7)
+    ek = pick(ek, 0, NEDITS) if rel in (3, 4) else 0
     bn = pick(bn, 0, 2) if rel == 0 else 0
     c = leaf_value(kind, ci, s0, s1, sn)
     with nt():
@@ -212,6 +228,13 @@ def body(code, ci, s0, s1, sn, rel, ek, bn):
             B.args[0]._func_adl_executor = print
             find_leaf(B, c)._whatever = object()
             expect_same = True
+        elif rel == 5:    # B is a shallow copy of A's top node with one argument replaced (what QMetaData / the metadata cleaner do)
+            B = copy.copy(A)
+            other = build(shape, c, "x")
+            other.args[1].body = ast.Tuple([other.args[1].body, ast.Constant(0)], L)
+            B.args = [A.args[0], other.args[1]]
+        elif rel == 6:    # A itself is edited in place between two hash computations
+            B = None
         else:             # one edit (rel 3) / the same edit on both (rel 4)
             B = copy.deepcopy(A)
             if not edit(B, c, ek):
@@ -219,11 +242,31 @@ def body(code, ci, s0, s1, sn, rel, ek, bn):
             if rel == 4:
                 A = copy.deepcopy(A)
                 edit(A, c, ek)
-        structurally_same = same(A, B)
+            elif ek == 11:
+                # make the pair differ ONLY in which non-ASCII character is used
+                A = copy.deepcopy(A)
+                if isinstance(c, str):
+                    if not any(ord(ch) > 127 for ch in c):
+                        find_leaf(A, c).value = c + "\xe9"
+                else:
+                    for n in ast.walk(A):
+                        if isinstance(n, ast.Attribute):
+                            n.attr = n.attr + "\xe9"
+                            break
+        structurally_same = same(A, B) if B is not None else False
         if expect_same is not None and structurally_same != expect_same:
             return "harness error: relation %d did not produce the intended pair" % rel
     tick()
     try:
+        if B is None:
+            ha = calc_ast_hash(A)
+            ha2 = calc_ast_hash(A)
+            with nt():
+                find_leaf(A, c).value = (c + "z") if isinstance(c, str) else ((not c) if isinstance(c, bool) else c + 1)
+            hb = calc_ast_hash(A)
+            if ha == hb and ha == ha2:
+                return "hash did not change after the tree was edited in place"
+            return "" if ha == ha2 else "hash not reproducible"
         ha, hb = calc_ast_hash(A), calc_ast_hash(B)
         ha2 = calc_ast_hash(A)
     except Exception as e:
